@@ -191,6 +191,40 @@ contract("verif.harness.ecc.schnorr_verify_bytes", props=("C02",), nl_uf=True,
                   "implies(raises(), not spec.schnorr.verify(spec.curve.x_of(pub).to_bytes(32, 'big'), msg, sig))"],
          gen=_gen_schnorr_verify)
 
+# keys as 32-byte strings, including strings that are no x coordinate of a curve point (BIP340 lift_x fails: 0, p, 2^256-1,
+# non-residues): nothing verifies under them.  Added after seed C02-E (the point at infinity, which parse_xonly returns for
+# 32 zero bytes, got a parity attribute, so verification under it ran through with P = infinity and accepted x(kG) || k)
+def _gen_schnorr_xonly(rng, tier):
+    from buidl.pecc import PrivateKey
+    import verif.specs as s
+    Pf = s.curve.P
+    bad = [bytes(32), Pf.to_bytes(32, "big"), (Pf + 1).to_bytes(32, "big"), b"\xff" * 32, (5).to_bytes(32, "big")]
+    for j in range(6):
+        x = rng.randrange(1, Pf)
+        if s.curve.lift_x(x) is None:
+            bad.append(x.to_bytes(32, "big"))
+    for t, pk in enumerate(bad):
+        m = rand_bytes(rng, 32)
+        for k in (1, 2, 3, 7, rng.randrange(1, N)):
+            R = s.curve.mul_G(k)
+            kk = k if s.curve.has_even_y(R) else N - k
+            yield {"pk32": pk, "msg": m, "sig": s.curve.x_of(R).to_bytes(32, "big") + kk.to_bytes(32, "big")}
+        yield {"pk32": pk, "msg": m, "sig": rand_bytes(rng, 64)}
+    for d in _DS[:3] + [rng.randrange(1, N) for _ in range(3 if tier == "quick" else 20)]:
+        m = rand_bytes(rng, 32)
+        sig = PrivateKey(d).sign_schnorr(m, rand_bytes(rng, 32)).serialize()
+        pk = s.curve.x_of(s.curve.mul_G(d)).to_bytes(32, "big")
+        yield {"pk32": pk, "msg": m, "sig": sig}
+        yield {"pk32": pk, "msg": m, "sig": sig[:40] + bytes([sig[40] ^ 4]) + sig[41:]}
+        yield {"pk32": bytes([pk[0] ^ 1]) + pk[1:], "msg": m, "sig": sig}
+
+
+contract("verif.harness.ecc.schnorr_verify_xonly", props=("C02",), tiers=("runtime-only",),
+         params={"pk32": B32, "msg": B32, "sig": "bytes:64"},
+         ensures=["implies(returns(), result == spec.schnorr.verify(pk32, msg, sig))",
+                  "implies(raises(), not spec.schnorr.verify(pk32, msg, sig))"],
+         gen=_gen_schnorr_xonly)
+
 # history contract (added after seeded change C02-D: verify_schnorr negating an odd-Y key in place and restoring it only on
 # some exits): rejected signatures must leave the key object as it was -- the honest signature verifies before and after
 def _gen_schnorr_history(rng, tier):
